@@ -288,13 +288,21 @@ class CompositeExchangeMove(CompositeMove[ExchangeMove]):
                     context.particle_delta += 1
                     success = True
 
+                # pre-selections are one-shot: whatever the composite did with them,
+                # none may survive the trial on a member
                 move.to_add_atoms = None
+                move.to_delete_label = None
             return success
         else:
             deleted_labels = []
             deleted_indices = np.array([], dtype=np.int_)
 
             for move in self.moves:
+                # the composite draws its own targets: pre-selections placed on a
+                # member are dropped here, on every exit path of this branch
+                move.to_add_atoms = None
+                move.to_delete_label = None
+
                 available_candidates = np.setdiff1d(
                     move.unique_labels, deleted_labels, assume_unique=True
                 )
